@@ -347,6 +347,7 @@ const char* struct_fault_name(int f)
     case SF_SWAP_SIBLINGS: return "swap-siblings";
     case SF_EMPTY_TEXT: return "empty-text";
     case SF_RENAME_TAG: return "rename-tag";
+    case SF_ODD_TEXT: return "odd-text";
     }
     return "?";
 }
@@ -603,6 +604,34 @@ static std::string apply_struct_fault_unchecked(const std::string& x, int fault,
         return x.substr(0, a->begin) + x.substr(b->begin, b->end - b->begin) + x.substr(a->end, b->begin - a->end) +
                x.substr(a->begin, a->end - a->begin) + x.substr(b->end);
     }
+    case SF_ODD_TEXT: {
+        auto* e = pick_elem([&](const Elem& el) {
+            if (el.selfclose || el.end <= el.open_end)
+                return false;
+            if (el.name == "declaration" || el.name == "label" || el.name == "system" || el.name == "parameter" || el.name == "formula" ||
+                el.name == "comment")
+                return false;  // grammar blocks have their own fault kinds
+            size_t close = x.rfind("</", el.end);
+            if (close == std::string::npos || close <= el.open_end)
+                return false;
+            return x.find('<', el.open_end) == close;
+        });
+        if (!e)
+            return x;
+        size_t close = x.rfind("</", e->end);
+        const std::string old = x.substr(e->open_end, close - e->open_end);
+        static const char* odd[] = {"\n\t\t\t%s\n\t\t", "x%s", "%s %s", "99999999999999999999", "-1", "2nd", "Se-en", "%s.5", "0x1F", "   ", "&#x41;&#x20;&#x42;"};
+        std::string fmt = odd[rng.below(sizeof odd / sizeof odd[0])], nw;
+        for (size_t i = 0; i < fmt.size(); ++i) {
+            if (fmt[i] == '%' && i + 1 < fmt.size() && fmt[i + 1] == 's') {
+                nw += old;
+                ++i;
+            } else
+                nw += fmt[i];
+        }
+        desc += " <" + e->name + "> at " + std::to_string(e->begin);
+        return x.substr(0, e->open_end) + nw + x.substr(close);
+    }
     case SF_EMPTY_TEXT: {
         auto* e = pick_elem([&](const Elem& el) {
             if (el.selfclose || el.end <= el.open_end)
@@ -713,7 +742,7 @@ const char* model_fault_name(int f)
 {
     static const char* n[] = {"dup-location-name", "drop-argument",  "extra-argument",   "unknown-template", "dup-template-name", "system-no-semicolon",
                               "dup-process",       "dup-declaration", "dup-parameter",   "foreign-target",   "init-is-branchpoint", "unknown-process", "empty-template", "bad-dynamic-declaration", "no-system", "extra-initialiser", "function-without-return",
-                              "urgent-and-committed", "dynamic-parameter-mismatch", "random-initialiser", "global-declaration-in-template", "bad-iteration-type"};
+                              "urgent-and-committed", "dynamic-parameter-mismatch", "random-initialiser", "global-declaration-in-template", "bad-name", "no-init", "bad-iteration-type"};
     return f >= 0 && f < MF_COUNT ? n[f] : "?";
 }
 
@@ -911,6 +940,44 @@ bool apply_model_fault(Model& m, int fault, Rng& rng, bool semantic_only)
                                       "before_update { gi0 = 0 }", "after_update { gi0 = 1 }", "system ZQ;", "import \"libz.so\" { int zext(int a); };"};
         d.text = forms[rng.below(8)];
         t.decls.insert(t.decls.begin() + rng.below((uint32_t)t.decls.size() + 1), d);
+        return true;
+    }
+    case MF_BAD_NAME: {
+        if (semantic_only)
+            return false;
+        static const char* bad[] = {"2nd", "Se-en", "Obs erver"};
+        if (rng.chance(0.25) && !m.templs.empty()) {
+            m.templs[rng.below((uint32_t)m.templs.size())].name = bad[rng.below(3)];
+            return true;
+        }
+        MTempl* t = pick_templ([](const MTempl& x) {
+            for (auto& l : x.locs)
+                if (!l.name.empty())
+                    return true;
+            return false;
+        });
+        if (!t)
+            return false;
+        std::vector<MLoc*> named;
+        for (auto& l : t->locs)
+            if (!l.name.empty())
+                named.push_back(&l);
+        named[rng.below((uint32_t)named.size())]->name = bad[rng.below(3)];
+        return true;
+    }
+    case MF_NO_INIT: {
+        if (semantic_only)
+            return false;
+        // prefer the definition of a dynamic template, and not the first template of the document
+        MTempl* pick = nullptr;
+        for (size_t i = 0; i < m.templs.size(); ++i)
+            if (m.templs[i].dynamic && (i > 0 || rng.chance(0.3)))
+                pick = &m.templs[i];
+        if (!pick || rng.chance(0.3))
+            pick = pick_templ([](const MTempl& x) { return !x.locs.empty(); });
+        if (!pick)
+            return false;
+        pick->omit_init = true;
         return true;
     }
     case MF_BAD_ITERATION_TYPE: {
